@@ -15,7 +15,8 @@ import tapecommon as tc
 
 LEVEL = "proof"
 NS = "Adept.StackProto."
-REQUIRED = ["C10_first_seed_forgets", "C10_pass_pure_fwd", "C10_pass_pure_rev", "C10_new_recording_forgets", "C10_pause_noop",
+REQUIRED = ["C10_dependence_array_is_statement", "C10_append_array_is_extension", "C10_dependence_array_records",
+            "C10_dependence_array_unfolds", "C10_first_seed_forgets", "C10_pass_pure_fwd", "C10_pass_pure_rev", "C10_new_recording_forgets", "C10_pause_noop",
             "C10_dependence_is_statement", "C10_append_dependence"]
 
 
